@@ -23,7 +23,15 @@ History = the same caller-side objects used for several calculations (section "h
          own density, density=, natural_density=; with and without table=) alone in a fresh process, then every
          ordered pair of them on the same objects, optionally with the caller's own in-place density update in
          between; after every call the caller's objects must be what they were, and every call whose meaning the
-         statement fixes is judged by (1)-(4) for the density and table of THAT call."""
+         statement fixes is judged by (1)-(4) for the density and table of THAT call.
+Beam    = wavelength= and energy= (quick and thorough); a call with energy=E must also equal the same call with the
+         equivalent wavelength= (own conversion), grid points and match point.
+Construction histories = fasta.Molecule(name, X, cell_volume=V | density=d) with X an object somebody else owns (a
+         Formula the caller parsed, with or without its own density; an atom dictionary; text; the labile_formula of
+         an earlier molecule, of every table entry, of a Sequence): two constructions from the same object with
+         every ordered pair of 2 cell volumes and 2 natural densities; X must come back unaltered, every new
+         molecule is judged by (1)-(5) for ITS construction arguments, and every earlier molecule must report what
+         it reported and still satisfy (1)-(5), nsf route on its labile_formula included."""
 import itertools
 import math
 import os
@@ -31,6 +39,7 @@ import os
 from ..common import Acc, load_pt, chunks, rotate, MachineryError
 from ..histmc import in_fork
 from ..ref import contrast as R
+from ..ref.neutron import wavelength_of_energy
 
 META = dict(
     level="model_checking", engine="E1",
@@ -53,20 +62,30 @@ META = dict(
           "private-table Formula with table=T (the other two combinations leave the labile hydrogen "
           "unsubstituted - a documented TODO - and are executed as history only).  Every fasta molecule is judged "
           "a second time after five keyword-carrying calls on its labile_formula (an object shared by all users "
-          "of the table).  A history is non-trivial when the compound has labile hydrogen"),
+          "of the table).  A history is non-trivial when the compound has labile hydrogen.  BEAM: every grid point and "
+          "match point computed with energy= is also computed with the equivalent wavelength= and the two must agree.  "
+          "CONSTRUCTION HISTORIES: (argument kind: Formula | Formula with own density | atom dictionary | text) x "
+          "(cell_volume a | b | natural density a | b) for the first molecule x (same object | first.labile_formula) x "
+          "the same four for the second; after each construction the argument is compared with its state before, the "
+          "new molecule is judged (5 with 1-4 on a 3 x 2 grid) for its own arguments, and the first molecule is read "
+          "again and judged again; every table molecule and 3 Sequences: two variants derived from .labile_formula, "
+          "then the existing molecule read and judged again"),
     bound=dict(
         quick="9 compounds (one with an energy-dependent absorber) x 3 input forms + all 99 molecules of the 8 fasta tables; D2O fraction "
-              "{0, 0.08, 0.25, 0.5, 1} x volume fraction {0, 0.3, 1} x wavelength {1.798, 6} A; match point per "
+              "{0, 0.08, 0.25, 0.5, 1} x volume fraction {0, 0.3, 1} x {wavelength 1.798, 6 A, energy 5 meV (+ its equivalent wavelength)}; match point per "
               "compound x wavelength re-evaluated at volume fraction {0, 0.3, 1}.  Histories: 4 compounds (natural / "
               "isotopic density, D present, energy-dependent absorber) x [36 first calls x 24 judged second calls at "
-              "the default wavelength (+ the two caller-update variants - 'f.density = x' and 'f = 2*f; f.density = x' - where the second call uses the object's own "
-              "density) + 3 probe-only-differing histories per judged call] = 1224 histories each, 72 calls alone; "
-              "99 molecules x 5 keyword calls + re-judgement",
+              "the default beam (+ the two caller-update variants - 'f.density = x' and 'f = 2*f; f.density = x' - where the second call uses the object's own "
+              "density) + 7 beam-only-differing histories (default / wavelength= / energy=) per judged call] = 1320 histories "
+              "each, 96 calls alone; 99 molecules x 5 keyword calls + re-judgement; construction histories: 4 compounds x "
+              "4 argument kinds x 4 x 2 x 4 = 512 two-molecule histories, 99 table molecules + 3 Sequences x 2 derived "
+              "variants",
         thorough="12 compounds (adds nested groups, a hydrogen-free salt) x 3 input "
                  "forms + all 99 molecules; D2O fraction {0, 0.04, 0.08, 0.25, 0.5, 0.75, 1} x volume fraction "
                  "{0, 0.1, 0.3, 0.5, 0.9, 1} x {wavelength 0.5, 1.798, 6, 12 A, energy 5 meV}; match points as in quick.  "
-                 "Histories: all 14 compounds x [54 first calls x 36 judged second calls + variants] = 2700 histories "
-                 "each, 114 calls alone; molecules as in quick"),
+                 "Histories: all 14 compounds x [54 first calls x 36 judged second calls + variants] = 2844 histories "
+                 "each (7 beam-only-differing ones per judged call included), 150 calls alone; molecules and "
+                 "construction histories as in quick"),
     assumptions=[
         "atom masses and scattering lengths are the library's tables (C06/C07); the expected SLD of the substituted "
         "compound is the library's own neutron_sld on an atom dictionary and a density built by the reference "
@@ -97,6 +116,11 @@ META = dict(
         "within one history worker earlier histories have run in the same process: a violation there is named "
         "after the last two calls although something older may be the cause; the worker stops at its first "
         "violation",
+        "a Molecule built with cell_volume=V is the composition as written in a cell of V cubic Angstrom; built with "
+        "density=d it has the natural density d (docstring of Molecule: 'density is the natural density'; H[1] counts "
+        "as natural H); a Formula handed to Molecule is the caller's: its density (own or None) is not the molecule's "
+        "and must not change; derived variants are built from the labile_formula of table entries, which every user "
+        "of the table shares",
         "Molecule values are compared with the cell volume the Molecule reports (tables give cell volumes); "
         "empty molecules (gap, masked) have volume 0, density 0 and SLD 0",
     ],
@@ -143,7 +167,7 @@ CANONICAL = 0       # index of the hydrogen-free compound used to measure the so
 
 GRID = dict(
     quick=dict(d=(0, 0.08, 0.25, 0.5, 1), v=(0, 0.3, 1),
-               probes=(("wavelength", 1.798), ("wavelength", 6))),
+               probes=(("wavelength", 1.798), ("wavelength", 6), ("energy", 5.0))),
     thorough=dict(d=(0, 0.04, 0.08, 0.25, 0.5, 0.75, 1), v=(0, 0.1, 0.3, 0.5, 0.9, 1),
                   probes=(("wavelength", 0.5), ("wavelength", 1.798), ("wavelength", 6), ("wavelength", 12),
                           ("energy", 5.0))),
@@ -342,6 +366,7 @@ def measure_solvent(E, acc, tier, probe):
 
 def _snippet(E, item, probe, v, d, ref=None, match=False):
     lines = ["import periodictable as pt", "from periodictable import nsf, fasta, formula"]
+    lines += list(getattr(item, "pre", []))
     pk = "%s=%r" % (probe[0], probe[1])
     if match:
         lines.append("d, sld = nsf.D2O_match(%s, %s)" % (item.code, pk))
@@ -415,6 +440,28 @@ def check_item_probe(E, acc, item, probe, grid, tier, judge_molecule):
                               standalone=_snippet(E, item, probe, v, d, ref))
                 return False
             acc.outcome("%s:%s:ok" % (rule, item.lclass))
+            if probe[0] == "energy":
+                # the same beam given as a wavelength (own conversion h^2 / (2 m_n lambda^2)) is the same calculation
+                wl = wavelength_of_energy(probe[1])
+                kw2 = dict(item.kw); kw2["wavelength"] = wl
+                acc.evaluations += 1
+                acc.transitions += 1
+                snip2 = (_snippet(E, item, probe, v, d, ref) + "print(nsf.D2O_sld(%s, volume_fraction=%r, D2O_fraction=%r, "
+                         "wavelength=%r))\n" % (item.code, v, d, wl))
+                try:
+                    wre_, wim_ = _pair(nsf.D2O_sld(item.arg, volume_fraction=v, D2O_fraction=d, **kw2))
+                except Exception as e:
+                    acc.violation("raises:D2O_sld:%s" % type(e).__name__, dict(case, equivalent_wavelength=wl),
+                                  expected=[gre, gim], observed="%s: %s" % (type(e).__name__, e), standalone=snip2)
+                    return False
+                if not _close_scaled(wre_, gre, esc) or not _close_rel(wim_, gim):
+                    acc.violation("energy-vs-equivalent-wavelength:D2O_sld:%s" %
+                                  ("real" if not _close_scaled(wre_, gre, esc) else "imag"),
+                                  dict(case, equivalent_wavelength=wl), expected=[wre_, wim_], observed=[gre, gim],
+                                  standalone=snip2, detail="expected = the call with wavelength=%r, observed = the call "
+                                  "with energy=%r" % (wl, probe[1]))
+                    return False
+                acc.outcome("energy-vs-equivalent-wavelength:%s:ok" % rule)
             if m is not None:
                 acc.evaluations += 1
                 acc.transitions += 1
@@ -488,6 +535,26 @@ def check_item_probe(E, acc, item, probe, grid, tier, judge_molecule):
                 acc.violation("match-point:depends-on-volume-fraction", item.case(probe, match=True, v=v),
                               expected=sstar, observed=g,
                               standalone=_snippet(E, item, probe, 1, 0, ref, match=True))
+                return False
+        if probe[0] == "energy":
+            wl = wavelength_of_energy(probe[1])
+            kw2 = dict(item.kw); kw2["wavelength"] = wl
+            acc.evaluations += 1
+            acc.transitions += 1
+            snip2 = (_snippet(E, item, probe, 1, 0, ref, match=True)
+                     + "print(nsf.D2O_match(%s, wavelength=%r))\n" % (item.code, wl))
+            try:
+                d2, s2 = nsf.D2O_match(item.arg, **kw2)
+                d2, s2 = float(d2), float(s2)
+            except Exception as e:
+                acc.violation("raises:D2O_match:%s" % type(e).__name__, dict(case, equivalent_wavelength=wl),
+                              expected=[dstar, sstar], observed="%s: %s" % (type(e).__name__, e), standalone=snip2)
+                return False
+            if not (abs(d2 - dstar) * abs(slope) <= 2 * REL * sc and _close_scaled(s2, sstar, sc)):
+                acc.violation("energy-vs-equivalent-wavelength:D2O_match", dict(case, equivalent_wavelength=wl),
+                              expected=[d2, s2], observed=[dstar, sstar], standalone=snip2,
+                              detail="expected = the call with wavelength=%r, observed = the call with energy=%r"
+                                     % (wl, probe[1]))
                 return False
         acc.outcome("match:%s:%s" % (item.lclass, "below-0" if dstar < 0 else "above-1" if dstar > 1 else "in-[0,1]"))
 
@@ -778,7 +845,7 @@ class HistCheck(object):
         c["second"] = _call_json(second)
         return c
 
-    def single(self, call):
+    def single(self, call, signature=None):
         """The call alone on fresh objects."""
         objs = HObjects(self.E, self.comp)
         own = dict(Fd=self.item.rho, Fp=self.item.rho)
@@ -786,7 +853,7 @@ class HistCheck(object):
         if self.judged(call) and self.item.n_labile > 0:
             self.acc.nontrivial += 1
         return self.run_call(objs, own, call, self.case(None, None, call), [], None,
-                             "single-call:%s" % call_class(call))
+                             signature or "single-call:%s" % call_class(call))
 
     def history(self, first, update, second):
         E, acc = self.E, self.acc
@@ -828,7 +895,7 @@ def _call_from_json(j):
     return (tuple(j[0]), j[1], j[2], j[3], tuple(j[4]))
 
 
-P0, P1 = ("default", None), ("wavelength", 6)
+P0, P1, P2 = ("default", None), ("wavelength", 6), ("energy", 5.0)
 
 
 def hist_plan(tier):
@@ -850,8 +917,11 @@ def hist_plan(tier):
                 hist.append((a, "caller-derives-2x-and-sets-density", b))
     for b0 in seconds:
         b1 = b0[:4] + (P1,)
-        hist += [(b0, None, b1), (b1, None, b0), (b1, None, b1)]
-    alone = sorted(set(firsts) | set(seconds) | set(b[:4] + (P1,) for b in seconds), key=repr)
+        b2 = b0[:4] + (P2,)
+        hist += [(b0, None, b1), (b1, None, b0), (b1, None, b1),
+                 (b0, None, b2), (b2, None, b0), (b1, None, b2), (b2, None, b1)]
+    alone = sorted(set(firsts) | set(seconds) | set(b[:4] + (P1,) for b in seconds)
+                   | set(b[:4] + (P2,) for b in seconds), key=repr)
     return list(idxs), alone, hist
 
 
@@ -862,13 +932,20 @@ def _alone_shard(args):
     _, alone, _ = hist_plan(tier)
     acc = Acc()
     bad = []
-    for call in alone:
-        def one(call=call):
+    fine = set()
+    for call in sorted(alone, key=lambda c: (c[4] != P0, repr(c))):
+        # a call that is right with the default beam and wrong with the beam given: the cause is the beam keyword
+        sig = None
+        if call[4] != P0 and call[:4] + (P0,) in fine:
+            sig = "single-call:beam-given-as-%s" % call[4][0]
+        def one(call=call, sig=sig):
             a = Acc()
-            return HistCheck(Env(), a, idx, tier).single(call), a
+            return HistCheck(Env(), a, idx, tier).single(call, sig), a
         ok, a = in_fork(one)
         acc.merge(a)
-        if not ok:
+        if ok:
+            fine.add(call)
+        else:
             bad.append(call)
     acc.traces = acc.transitions
     return idx, bad, acc
@@ -975,6 +1052,244 @@ def molecule_history(E, acc, item, tier):
     return ok
 
 
+# ---------------------------------------------------------------------------------------------
+# construction histories: biomolecule objects built from objects that somebody else owns
+#
+# fasta.Molecule(name, formula, cell_volume=V | density=d) is handed a compound the CALLER owns (a Formula parsed
+# once, with or without a density of its own; an atom dictionary; text) or the labile_formula of another molecule (an
+# earlier one of the caller, a table entry that every user of the table shares, a Sequence).  A history = first
+# construction, second construction from the same object (or from first.labile_formula) with every cell volume /
+# natural density of a small list.  After every construction: the argument is what it was; the new molecule is
+# judged by (1)-(5) with the composition as written and the cell volume / natural density of ITS construction;
+# every earlier molecule reports what it reported before and is judged again, nsf route on its labile_formula included.
+C_COMPOUNDS = (1, 2, 7, 0)
+C_ARGS = ("formula", "formula+density", "atoms", "text")
+C_SECOND = ("same-object", "first.labile_formula")
+C_SPECS = (("cell_volume", 0), ("cell_volume", 1), ("density", 0), ("density", 1))
+C_OWN_DENSITY = 0.77                       # the density the caller gave to his own Formula (not the molecule's)
+C_NATURAL_DENSITY = (1.1, 1.35)
+C_SEQUENCES = (("aa", "GAKKA"), ("dna", "ACGT"), ("rna", "ACGU"))
+C_PROBE = ("wavelength", 1.798)            # Molecule attributes are defined at the default wavelength
+
+
+def molecule_state(m):
+    """What a user can read of a Molecule."""
+    return dict(name=m.name, cell_volume=m.cell_volume, sld=m.sld, Dsld=m.Dsld, mass=m.mass, Dmass=m.Dmass,
+                D2Omatch=m.D2Omatch, charge=m.charge, D2Osld=m.D2Osld(volume_fraction=0.3, D2O_fraction=0.5),
+                labile_formula=formula_state(m.labile_formula), natural_formula=formula_state(m.natural_formula),
+                same_formula=m.formula is m.labile_formula)
+
+
+class MolItem(object):
+    """A Molecule somebody constructed: what it is for the reference (composition as written, density from the
+    arguments of its construction) and how the nsf route is called for it (its labile_formula)."""
+    form, dclass, kw = "molecule", "vol", {}
+
+    def __init__(self, E, m, pairs, rho, var, pre, case):
+        self.molecule, self.pairs, self.rho = m, pairs, rho
+        self.arg = m.labile_formula
+        self.code = "%s.labile_formula" % var
+        self.pre = pre
+        self._case = case
+        self.desc = ("built", var)
+        self.label = var
+        self.n_labile = sum(n for a, n in pairs if a is E.H1)
+        self.lclass = "labile=0" if self.n_labile == 0 else "labile>0"
+
+    def case(self, probe, **extra):
+        return dict(self._case)
+
+
+def _spec_kw(E, pairs, rho0, spec):
+    """(keyword dict of the construction, density of the compound as written that it means)."""
+    kind, k = spec
+    if kind == "cell_volume":
+        v0 = round(R.mass(pairs) / E.NA / rho0 * 1e24, 1)
+        V = v0 if k == 0 else round(1.12 * v0, 1)
+        return dict(cell_volume=V), R.density_from_volume(pairs, V, E.NA)
+    d = C_NATURAL_DENSITY[k]
+    return dict(density=d), R.written_density(pairs, "nat", d)
+
+
+def _kwsrc(kw):
+    return ", ".join("%s=%r" % kv for kv in sorted(kw.items()))
+
+
+class Construction(object):
+    """One history of constructions; stops at its first violation."""
+    def __init__(self, E, acc, case):
+        self.E, self.acc, self.case = E, acc, case
+        self.pre = []
+        self.built = []            # (variable, molecule, MolItem, state when built)
+
+    def construct(self, var, arg, argsrc, argkind, owner_state, kw, pairs, rho):
+        """-> the new molecule, or None after a violation.  owner_state() -> comparable state of the argument."""
+        E, acc = self.E, self.acc
+        before = owner_state() if owner_state else None
+        acc.evaluations += 1
+        acc.transitions += 1
+        line = "%s = fasta.Molecule(%r, %s, %s)" % (var, var, argsrc, _kwsrc(kw))
+        try:
+            m = E.fasta.Molecule(var, arg, **kw)
+        except Exception as e:
+            acc.violation("molecule-construction:raises:%s:%s" % (type(e).__name__, argkind), self.case,
+                          expected="a Molecule", observed="%s: %s" % (type(e).__name__, e),
+                          standalone="\n".join(["import periodictable as pt", "from periodictable import nsf, fasta, formula"]
+                                               + self.pre + [line]) + "\n")
+            return None
+        self.pre = self.pre + [line]
+        if owner_state is not None:
+            after = owner_state()
+            if after != before:
+                fields = [k for k in sorted(before) if before[k] != after.get(k)] if isinstance(before, dict) else ["items"]
+                owner = "caller-formula" if argkind.startswith("formula") else argkind
+                acc.violation("argument-altered:molecule-constructor:%s:%s" % (owner, "+".join(fields)), self.case,
+                              expected=repr(dict((k, v) for k, v in before.items() if k != "structure")
+                                            if isinstance(before, dict) else before),
+                              observed=repr(dict((k, v) for k, v in after.items() if k != "structure")
+                                            if isinstance(after, dict) else after),
+                              standalone="\n".join(["import periodictable as pt", "from periodictable import nsf, fasta, formula"]
+                                                   + self.pre + ["print(%s)" % (argsrc if argkind == "atoms" else
+                                                                               "%s, %s.density, %s.name" % ((argsrc,) * 3))])
+                                         + "\n",
+                              detail="the object handed to fasta.Molecule is not what it was: %s" % ", ".join(fields))
+                return None
+        item = MolItem(E, m, pairs, rho, var, self.pre, self.case)
+        if not self.judge(item, "new-molecule"):
+            return None
+        self.built.append((var, m, item, molecule_state(m)))
+        return m
+
+    def judge(self, item, which):
+        item.pre = self.pre
+        return check_item_probe(self.E, _Renamed(self.acc, "molecule-construction:%s:" % which), item, C_PROBE,
+                                MOLECULE_REGRID, "thorough", True)
+
+    def earlier_intact(self, which, upto=None):
+        """every molecule built before the last construction reports what it reported and is still right"""
+        for var, m, item, state in self.built[:upto]:
+            now = molecule_state(m)
+            if now != state:
+                names = [k for k in sorted(state) if state[k] != now[k]]
+                self.acc.violation("molecule-construction:%s:reports-changed:%s" % (which, "+".join(names)), self.case,
+                                   expected=repr(dict((k, state[k]) for k in names)),
+                                   observed=repr(dict((k, now[k]) for k in names)),
+                                   standalone="\n".join(["import periodictable as pt",
+                                                         "from periodictable import nsf, fasta, formula"] + self.pre
+                                                        + ["print(%s.sld, %s.Dsld, %s.D2Omatch, %s.labile_formula.density, "
+                                                           "nsf.D2O_match(%s.labile_formula))" % ((var,) * 5)]) + "\n")
+                return False
+            if not self.judge(item, which):
+                return False
+        return True
+
+
+def construction_history(E, acc, idx, argkind, spec1, second, spec2):
+    """Two molecules from one caller-owned object.  Returns False after a violation."""
+    label, text, comp, dkind, dval = compounds("thorough")[idx]
+    pairs = [(E.atom(k), n) for k, n in comp]
+    rho0 = R.written_density(pairs, dkind, dval)
+    case = dict(unit="construct", compound=idx, arg=argkind, first=list(spec1), second=[second, list(spec2)])
+    acc.states += 1
+    if sum(n for a, n in pairs if a is E.H1) > 0:
+        acc.nontrivial += 1
+    H = Construction(E, acc, case)
+    if argkind == "formula":
+        arg = E.formula(text)
+        H.pre.append("f = formula(%r)" % text)
+        state = lambda: formula_state(arg)
+    elif argkind == "formula+density":
+        arg = E.formula(text, density=C_OWN_DENSITY)
+        H.pre.append("f = formula(%r, density=%r)" % (text, C_OWN_DENSITY))
+        state = lambda: formula_state(arg)
+    elif argkind == "atoms":
+        arg = dict(pairs)
+        H.pre.append("f = {%s}" % ", ".join("%s: %r" % (E.pyname(a), n) for a, n in pairs))
+        state = lambda: tuple((id(a), n) for a, n in arg.items())
+    elif argkind == "text":
+        arg = text
+        H.pre.append("f = %r" % text)
+        state = None
+    else:
+        raise MachineryError("argument kind %r" % (argkind,))
+    kw1, rho1 = _spec_kw(E, pairs, rho0, spec1)
+    m1 = H.construct("m1", arg, "f", argkind, state, kw1, pairs, rho1)
+    if m1 is None:
+        return False
+    kw2, rho2 = _spec_kw(E, pairs, rho0, spec2)
+    if second == "same-object":
+        m2 = H.construct("m2", arg, "f", argkind, state, kw2, pairs, rho2)
+    elif second == "first.labile_formula":
+        lf = m1.labile_formula
+        m2 = H.construct("m2", lf, "m1.labile_formula", "labile_formula-of-a-molecule", lambda: formula_state(lf),
+                         kw2, pairs, rho2)
+    else:
+        raise MachineryError("second argument %r" % (second,))
+    if m2 is None:
+        return False
+    if not H.earlier_intact("earlier-molecule-after-later-construction", upto=1):
+        return False
+    acc.outcome("construction:%s/%s then %s/%s:ok" % (argkind, spec1[0], second, spec2[0]))
+    return True
+
+
+def derivation_history(E, acc, m, code, desc, tier):
+    """A variant with another cell volume / natural density is built from the labile_formula of an existing
+    molecule (table entry or Sequence); the existing molecule must stay what it was and stay right."""
+    f = m.labile_formula
+    pairs = list(f.atoms.items())
+    if m.cell_volume == 0 or not pairs:
+        acc.count("derivation_from_empty_molecule_not_judged")
+        return True
+    case = dict(unit="derive", item=list(desc))
+    acc.states += 1
+    if any(a is E.H1 for a, n in pairs):
+        acc.nontrivial += 1
+    H = Construction(E, acc, case)
+    H.pre.append("m0 = %s" % code)
+    rho = R.density_from_volume(pairs, m.cell_volume, E.NA)
+    item0 = MolItem(E, m, pairs, rho, "m0", H.pre, case)
+    if not H.judge(item0, "existing-molecule"):
+        return False
+    H.built.append(("m0", m, item0, molecule_state(m)))
+    V = 1.12 * m.cell_volume
+    for k, (kw, rho_k) in enumerate(((dict(cell_volume=V), R.density_from_volume(pairs, V, E.NA)),
+                                     (dict(density=C_NATURAL_DENSITY[1]),
+                                      R.written_density(pairs, "nat", C_NATURAL_DENSITY[1])))):
+        v = H.construct("v%d" % (k + 1), f, "m0.labile_formula", "labile_formula-of-a-molecule",
+                        lambda: formula_state(f), kw, pairs, rho_k)
+        if v is None:
+            return False
+        if not H.earlier_intact("existing-molecule-after-derivation", upto=1):
+            return False
+    acc.outcome("derivation:%s:ok" % desc[0])
+    return True
+
+
+def construction_plan():
+    return [(a, s1, b, s2) for a in C_ARGS for s1 in C_SPECS for b in C_SECOND for s2 in C_SPECS]
+
+
+def _construct_shard(args):
+    idx, argkind, tier = args
+    E = Env()
+    acc = Acc()
+    for a, s1, b, s2 in construction_plan():
+        if a != argkind:
+            continue
+        if not construction_history(E, acc, idx, a, s1, b, s2):
+            break
+    else:
+        if idx == C_COMPOUNDS[0] and argkind == C_ARGS[0]:
+            for typ, seq in C_SEQUENCES:
+                m = E.fasta.Sequence("sequence", seq, type=typ)
+                if not derivation_history(E, acc, m, "fasta.Sequence('sequence', %r, type=%r)" % (seq, typ),
+                                          ("sequence", typ, seq), tier):
+                    break
+    acc.traces = acc.transitions
+    return acc
+
+
 def items_for(tier):
     E = Env()
     out = []
@@ -1009,6 +1324,8 @@ def _shard(args):
             ok = argument_intact(E, acc, item, before, "D2O_sld/D2O_match", "none", dict(item=list(desc), grid=True))
         if ok and item.molecule is not None:
             ok = molecule_history(E, acc, item, tier)
+        if ok and item.molecule is not None:
+            ok = derivation_history(E, acc, item.molecule, item.code.replace(".labile_formula", ""), desc, tier)
         if ok and len(acc.samples) < 2:
             acc.sample(dict(item=list(desc), labile=item.n_labile, density=item.rho))
     acc.traces = acc.transitions
@@ -1017,7 +1334,8 @@ def _shard(args):
 
 def _dispatch(job):
     kind, args = job
-    return _hist_shard(args) if kind == "hist" else _alone_shard(args) if kind == "alone" else _shard(args)
+    return (_hist_shard(args) if kind == "hist" else _alone_shard(args) if kind == "alone"
+            else _construct_shard(args) if kind == "construct" else _shard(args))
 
 
 def run(ctx):
@@ -1030,7 +1348,10 @@ def run(ctx):
     nshards = 16 if ctx.quick else 48
     jobs = [(part, tier, i == 0) for i, part in enumerate(chunks(items, nshards))]
     idxs, alone, hist = hist_plan(tier)
-    res = ctx.pmap(_dispatch, [("alone", (idx, tier)) for idx in idxs] + [("grid", j) for j in jobs])
+    res = ctx.pmap(_dispatch, [("alone", (idx, tier)) for idx in idxs] + [("grid", j) for j in jobs]
+                   + [("construct", (idx, a, tier)) for idx in C_COMPOUNDS for a in C_ARGS])
+    ctx.acc.info["construction_compounds"] = len(C_COMPOUNDS)
+    ctx.acc.info["construction_histories_per_compound"] = len(construction_plan())
     bad = {}
     for r in res:
         if isinstance(r, tuple):
@@ -1056,6 +1377,20 @@ def replay(ctx, case, signature=None):
             hc.single(second)
         else:
             hc.history(_call_from_json(case["first"]), case.get("update"), second)
+        return
+    if case.get("unit") == "construct":
+        construction_history(E, ctx.acc, case["compound"], case["arg"], tuple(case["first"]), case["second"][0],
+                             tuple(case["second"][1]))
+        return
+    if case.get("unit") == "derive":
+        desc = tuple(case["item"])
+        if desc[0] == "sequence":
+            m = E.fasta.Sequence("sequence", desc[2], type=desc[1])
+            derivation_history(E, ctx.acc, m, "fasta.Sequence('sequence', %r, type=%r)" % (desc[2], desc[1]), desc,
+                               "thorough")
+        else:
+            item = Item(E, desc, "thorough")
+            derivation_history(E, ctx.acc, item.molecule, item.code.replace(".labile_formula", ""), desc, "thorough")
         return
     if case.get("unit") == "molecule-history":
         item = Item(E, tuple(case["item"]), "thorough")
